@@ -120,5 +120,9 @@ Definition kernel_reducers : list (string * list string) :=
    ("group_sum_squares", ["nansum_squares"]);
    ("rolling_diff", ["diff"]); ("rolling_max", ["max"]); ("rolling_mean", ["mean"]);
    ("rolling_min", ["min"]); ("rolling_shift", ["shift"]); ("rolling_sum", ["sum"])].
+(* reducers a dispatcher selects by attribute instead of by name: _apply_cumulative replaces the plain sum of a
+   timestamp / timedelta column by the null-keeping one (Model/Cumulative.cum_reducer, temporal = true) *)
+Definition direct_reducers : list (string * list string) := [("_apply_cumulative", ["nullsum"])].
+
 Definition scalar_func_names : list string :=
   ["sum"; "nullsum"; "nansum"; "nansum_squares"; "max"; "nanmax"; "min"; "nanmin"; "nancount"; "count"; "first"; "last"].
